@@ -57,10 +57,15 @@ class Ns:
     try:
       return self._d[k]
     except KeyError:
-      raise AttributeError(k)
+      raise OutOfSubset(f'the contract refers to `{k}`, which the code no longer '
+                        f'has (renamed or restructured)')
 
   def __getitem__(self, k):
-    return self._d[k]
+    try:
+      return self._d[k]
+    except KeyError:
+      raise OutOfSubset(f'the contract refers to `{k}`, which the code no longer '
+                        f'has (renamed or restructured)')
 
   def __contains__(self, k):
     return k in self._d
@@ -1449,7 +1454,9 @@ class Executor:
       if fn.what in ('closure', 'lambda'):
         return self.inline_closure(fn, args, kwargs, node)
       if fn.what == 'excclass':
-        return VExc(fn.payload, args=args)
+        e = VExc(fn.payload, args=args)
+        e.origin = 'stmt' if self.depth == 0 else 'inlined:' + self.frame.qual
+        return e
       if fn.what == 'recclass':
         return self.world.make_record(self, fn.payload, args, kwargs, node)
       if fn.what == 'opaque':
@@ -1600,6 +1607,8 @@ class Executor:
           else a[n]
     args_snap = {k: snapshot(v) for k, v in a.items()}
     old = self.snapshot_state()
+    self.path.trace.append({'call': c.qual, 'args': args_snap, 'state': old,
+                            'node': node})
     ctx = Ctx(self.path, args_snap, old, old, ghost=self.path.ghost,
               trace=self.path.trace)
     if selfw is not None:
@@ -1669,6 +1678,10 @@ class Executor:
   def opaque_call(self, fn, args, kwargs, node):
     c = self.contract
     name = fn.payload if isinstance(fn, VPy) else str(fn.e)
+    if c.opaque_model is not None:
+      r = c.opaque_model(self, fn, args, kwargs, node)
+      if r is not None:
+        return r
     ev = {'fn': fn, 'args': args, 'kwargs': kwargs,
           'state': self.snapshot_state(), 'node': node}
     self.path.trace.append(ev)
